@@ -270,6 +270,14 @@ __gmp_doprnt (const struct doprnt_funs_t *funs, void *data,
             TRACE (printf ("integer, base=%d\n", param.base));
             if (! seen_precision)
               param.prec = -1;
+            else if (param.prec >= 0 && param.fill == '0')
+              {
+                /* as in C, the '0' flag is ignored for integer conversions
+                   when a precision is given */
+                param.fill = ' ';
+                if (param.justify == DOPRNT_JUSTIFY_INTERNAL)
+                  param.justify = DOPRNT_JUSTIFY_RIGHT;
+              }
             switch (type) {
             case 'j':
               /* Let's assume uintmax_t is the same size as intmax_t. */
@@ -521,12 +529,19 @@ __gmp_doprnt (const struct doprnt_funs_t *funs, void *data,
             break;
 
           case '+':
-          case ' ':
             param.sign = fchar;
+            break;
+          case ' ':
+            /* as in C, a space flag is ignored if a '+' flag is present, in
+               either order */
+            if (param.sign != '+')
+              param.sign = fchar;
             break;
 
           case '-':
+            /* as in C, '-' overrides a '0' flag, in either order */
             param.justify = DOPRNT_JUSTIFY_LEFT;
+            param.fill = ' ';
             break;
           case '.':
             seen_precision = 1;
@@ -544,23 +559,29 @@ __gmp_doprnt (const struct doprnt_funs_t *funs, void *data,
                   if (n < 0)
                     {
                       param.justify = DOPRNT_JUSTIFY_LEFT;
+                      param.fill = ' ';
                       n = -n;
                     }
                   param.width = n;
                 }
-              else
+              else if (n < 0)
                 {
-                  /* don't allow negative precision */
-                  param.prec = MAX (0, n);
+                  /* as in C, a negative precision is taken as if the
+                     precision were omitted */
+                  seen_precision = 0;
+                  param.prec = 6;
                 }
+              else
+                param.prec = n;
             }
             break;
 
           case '0':
             if (value == &param.width)
               {
-                /* in width field, set fill */
-                param.fill = '0';
+                /* in width field, set fill, unless '-' was already seen */
+                if (param.justify != DOPRNT_JUSTIFY_LEFT)
+                  param.fill = '0';
 
                 /* for right justify, put the fill after any minus sign */
                 if (param.justify == DOPRNT_JUSTIFY_RIGHT)
